@@ -560,7 +560,7 @@ def lattice(tier, seed):
         for com in (["linear", 1], ["angular", 2]):
             # (no diatomics / linear molecules here: 3N - 6 degrees of freedom under ('angular', N) is documented as not
             #  detecting linear molecules, a diatomic then has n_dof = 0 and no temperature; C13 records that refusal)
-            for bt in [list(t) for t in itertools.permutations(["CH4", "H2O", "H2CO"], 2)] + ([] if quick else [["OH-", "NH4+"], ["CH4", "H2O", "H2CO"]]):
+            for bt in [list(t) for t in itertools.permutations(["CH4", "H2O", "H2CO"], 2)] + ([] if quick else [["NH4+", "H2CO"], ["CH4", "H2O", "H2CO"]]):
                 cases.append(_case("md", [_spec(n) for n in bt], 1, "far", _cfg("AM1", engine=engine, com=com), seed))
     for engine in ENGINES_PAIRS_ONLY:
         for bt in md_batches:
